@@ -42,7 +42,7 @@ def save_image(path, a):
         tifffile.imwrite(path, a, photometric="rgb" if a.ndim == 3 else "minisblack")
 
 
-def write_stack(dirpath, insize, first_channel, rgb, dtype, ext):
+def write_stack(dirpath, insize, first_channel, rgb, dtype, ext, blank=None):
     """one directory of slices; returns the number of channels it carries"""
     ncol, nrow, nsl = insize
     os.makedirs(dirpath, exist_ok=True)
@@ -51,6 +51,8 @@ def write_stack(dirpath, insize, first_channel, rgb, dtype, ext):
     for s in range(nsl):
         planes = [1 + cc + ncol * (rr + nrow * (s + nsl * (first_channel + k))) for k in range(nch)]
         img = np.stack(planes, axis=-1) if rgb else planes[0]
+        if blank and blank[s]:
+            img = img * 0
         save_image(os.path.join(dirpath, "slice_%04d%s" % (s, ext)), img.astype(dtype))
     return nch
 
@@ -63,7 +65,8 @@ def prepare_stack(work, plan):
     ch = 0
     for k in range(plan["dirs"]):
         p = os.path.join(d, "in%d" % k)
-        ch += write_stack(p, plan["insize"], ch, plan["rgb"], np.dtype(plan["pixel"]), plan["ext"])
+        ch += write_stack(p, plan["insize"], ch, plan["rgb"], np.dtype(plan["pixel"]), plan["ext"],
+                          plan.get("blank"))
         dirs.append(p)
     out = os.path.join(d, "out")
     size = out_size(plan["code"], plan["insize"])
@@ -86,6 +89,7 @@ def slice_case(plan, prepd, res):
     case = {"code": list(plan["code"]), "insize": list(plan["insize"]),
             "outsize": prepd["outsize"], "channels": prepd["channels"],
             "depth": plan["chunk"][AXIS[plan["code"][2]]],
+            "blank": list(plan.get("blank") or [0] * plan["insize"][2]),
             "run": {"outcome": res["outcome"], "exit": res["exit"]}}
     n = prepd["channels"] * int(np.prod(plan["insize"]))
     missing_cls = []
